@@ -177,16 +177,84 @@ Proof.
   - destruct (bstr_eqb (ai_id n) self); [discriminate|reflexivity].
 Qed.
 
-Lemma lookup_heard_bound K self target qf rp :
+Lemma lookup_heard_div_bound K self target qf gm limit rp :
   wire_reply rp = true ->
-  exists r, lookup_heard K self target qf rp = Ok r /\
+  exists r, lookup_heard_div K self target qf gm limit rp = Ok r /\
             match r with Some h => (length h <= 2 * K)%nat | None => rp = RErr end.
 Proof.
-  intro H. unfold lookup_heard. apply wire_reply_inv in H as [->|(m & -> & Hm)].
+  intro H. unfold lookup_heard_div. apply wire_reply_inv in H as [->|(m & -> & Hm)].
   - cbn. exists None. split; reflexivity.
   - destruct (wire_msg_inv m Hm) as (cl & pl & Hc & Hp).
     cbn [get_closest_peers get_closer]. rewrite Hc, pb_peers_to_infos_wire. cbn [bind].
     eexists. split; [reflexivity|]. apply process_response_length.
+Qed.
+
+Lemma lookup_heard_bound K self target qf rp :
+  wire_reply rp = true ->
+  exists r, lookup_heard K self target qf rp = Ok r /\
+            match r with Some h => (length h <= 2 * K)%nat | None => rp = RErr end.
+Proof. apply lookup_heard_div_bound. Qed.
+
+(* ---- 4b. the IP diversity filter ---------------------------------------- *)
+Lemma filter_diversity_incl gm limit l : incl (filter_diversity gm limit l) l.
+Proof.
+  unfold filter_diversity. destruct limit; [apply incl_refl|].
+  intros x Hx. apply filter_In in Hx. tauto.
+Qed.
+
+Lemma filter_diversity_length gm limit l : (length (filter_diversity gm limit l) <= length l)%nat.
+Proof. unfold filter_diversity. destruct limit; [lia|apply filter_length_le]. Qed.
+
+(* the filter of [process_response] under [diversity] is [filter_diversity] of the capped list *)
+Lemma process_response_diversity K self target qf gm limit l :
+  process_response K self target qf (diversity gm limit K l) l =
+  map ai_id (filter (fun n => negb (bstr_eqb (ai_id n) self)
+                              && (bstr_eqb (ai_id n) target || qf n))
+                    (filter_diversity gm limit (cap_closer K l))).
+Proof. unfold process_response, diversity, filter_diversity. destruct limit; reflexivity. Qed.
+
+Lemma group_size_incl gm l l' g :
+  incl l' l -> (group_size gm l' g <= group_size gm l g)%nat.
+Proof.
+  intro Hi. unfold group_size. apply NoDup_incl_length; [apply NoDup_nodup|].
+  intros x Hx. apply nodup_In in Hx. apply nodup_In.
+  apply in_map_iff in Hx as (n & <- & Hn). apply filter_In in Hn as [Hn Hg].
+  apply in_map. apply filter_In. split; [apply Hi; exact Hn|exact Hg].
+Qed.
+
+Lemma filter_nil_all {A} (f : A -> bool) l : (forall x, In x l -> f x = false) -> filter f l = [].
+Proof.
+  induction l as [|a l IH]; intro H; [reflexivity|]. cbn.
+  rewrite (H a (or_introl eq_refl)). apply IH. intros x Hx. apply H. right. exact Hx.
+Qed.
+
+(* after the filter no IP group is represented by more than [limit] distinct peers *)
+Lemma filter_diversity_bound gm limit l g :
+  (0 < limit)%nat -> (group_size gm (filter_diversity gm limit l) g <= limit)%nat.
+Proof.
+  intro Hpos. destruct (over_group gm limit l g) eqn:Eo.
+  - assert (Hnil : filter (in_group gm g) (filter_diversity gm limit l) = []).
+    { destruct limit as [|k]; [lia|]. unfold filter_diversity.
+      apply filter_nil_all. intros n Hn.
+      apply filter_In in Hn as [Hn Hr]. destruct (in_group gm g n) eqn:Eg; [|reflexivity].
+      exfalso. apply negb_true_iff in Hr.
+      assert (removed_by gm (S k) l n = true); [|congruence].
+      unfold removed_by. apply existsb_exists. exists (id_tag n). split; [|apply N.eqb_refl].
+      unfold to_remove. apply in_map. apply filter_In. split; [exact Hn|].
+      apply existsb_exists. exists g. split; [|exact Eo].
+      unfold in_group in Eg. apply existsb_exists in Eg as (g' & Hg' & E).
+      apply N.eqb_eq in E. subst g'. exact Hg'. }
+    unfold group_size. rewrite Hnil. cbn. lia.
+  - unfold over_group in Eo. apply Nat.ltb_ge in Eo.
+    etransitivity; [apply group_size_incl, filter_diversity_incl|exact Eo].
+Qed.
+
+(* a peer that shares no over-represented group survives the filter *)
+Lemma filter_diversity_keeps gm limit l n :
+  In n l -> removed_by gm limit l n = false -> In n (filter_diversity gm limit l).
+Proof.
+  intros Hn Hr. unfold filter_diversity. destruct limit; [exact Hn|].
+  apply filter_In. split; [exact Hn|]. rewrite Hr. reflexivity.
 Qed.
 
 (* ---- 5. the exchange never blocks: silence is a timeout error ----------- *)
